@@ -217,7 +217,7 @@ def run(chk):
                 "assignment on 3D-marker, force/torque and EMG blocks (frame counts 1-9, given to the constructor or assigned to the still-empty block; 0 or 2 prior tracks); the objects: a "
                 "track of the right length, one frame short, one frame long, empty, a track that was looked at and then re-dimensioned through its public array attributes (to the right / to a wrong length), an int, None, a str, a track of another "
                 "class, at every position of lists of length 0-3 (as list, tuple and generator), and non-iterable right-hand "
-                "sides, lists that equal the current tracks element-wise under numpy broadcasting but hold one wrong-length track, and right-hand sides derived lazily from the block's own tracks (generator expression, filter, map, islice, iter, the list itself, reversed); observed after each call: exception class, identity and frame counts of block.tracks; non-trivial = "
+                "sides, lists that equal the current tracks element-wise under numpy broadcasting but hold one wrong-length track, and right-hand sides derived lazily from the block's own tracks (generator expression, filter, map, islice, iter, the list itself, reversed); observed after each call: exception class, identity and frame counts of block.tracks; plus blocks of 100 000 and 250 000 frames offered tracks one and two frames off; non-trivial = "
                 "contains an invalid object")
     runs, done = [], []
     for kind, nfr, prior, seq, uni, how in jobs:
@@ -240,6 +240,45 @@ def run(chk):
             break
     check_decoded(chk)
     equal_looking_lists(chk)
+    long_recordings(chk)
+
+
+def long_recordings(chk):
+    """the frame-count rule at the sizes real recordings have (100 s of EMG at 1 kHz, 250 000 frames): a track one or two
+    frames off is refused and changes nothing — singly, and at any position of an assigned list — exactly as for short
+    blocks; a track of the right length is accepted"""
+    for kind in ("D3", "FT", "EM"):
+        for nfr in ((100000, 250000) if chk.tier == "quick" else (65536, 100000, 250000, 1000000)):
+            b = api.make_block(kind, nfr)
+            good = api.make_item(kind, "good", nfr, 1)
+            api.install(kind, b, [good])
+            for d in (1, -1, 2, -2):
+                bad = api.make_item(kind, "off by %d" % d, nfr + d, 2)
+                chk.note_case(("long recording", kind, nfr, d), True)
+                chk.count("%s block of >= 65536 frames, track off by one or two" % kind)
+                what = {"kind": kind, "nframes": nfr, "track_frames": nfr + d}
+                before = list(api.items_of(kind, b))
+                calls = [("add", lambda: (b.add_track(bad) if kind != "EM" else b.addSignal(bad)))]
+                if kind != "EM":
+                    calls.append(("tracks = [held, good, off]", lambda: setattr(b, "tracks", [good, api.make_item(kind, "g2", nfr, 3), bad])))
+                for name, thunk in calls:
+                    try:
+                        thunk()
+                        rc = None
+                    except Exception as e:
+                        rc = api.exc_name(e)
+                    after = list(api.items_of(kind, b))
+                    lens = [true_len(kind, x) for x in after]
+                    if rc is None or any(l != nfr for l in lens) or len(after) != len(before) or any(x is not y for x, y in zip(before, after)):
+                        chk.violation("C16 %s: a block of %d frames, %s with a track of %d frames: %s; the block now holds tracks of %r frames" %
+                                      (kind, nfr, name, nfr + d, "accepted" if rc is None else "raised " + rc, lens), dict(what, call=name), True)
+                        return
+            ok = api.make_item(kind, "second", nfr, 4)
+            try:
+                b.add_track(ok) if kind != "EM" else b.addSignal(ok)
+            except Exception as e:
+                chk.violation("C16 %s: a block of %d frames refuses a track of %d frames: %s" % (kind, nfr, nfr, common.exc_info(e)), {"kind": kind, "nframes": nfr}, True)
+                return
 
 
 def equal_looking_lists(chk):
